@@ -93,6 +93,8 @@ def _child(plan, wfd):
         state["skip"], state["cmd_i"] = 0, 0
         state["fault"] = step.get("fault")
         state["bringup_fault"] = step.get("bringup_fault")
+        if step.get("connect_failures"):
+            world.connect_failures = step["connect_failures"]
         world.on_event = base_on_event
         if step.get("then_mode") is not None:
             # the device changes mode right after the faulted exchange of this request
@@ -201,6 +203,10 @@ def concrete_step(cause, rng, v1):
         return line, {"fault": {"at": at, "spec": ["sw", rng.choice([0x6A01, 0x6A87, 0x6A8F, 0x6B87, 0x6B10, 0x6BF1, 0x69A0])]}}, cmd
     if cause == "timeout":
         return line, {"fault": {"at": at, "spec": ["timeout"]}}, cmd
+    if cause == "reconnfail":
+        # a link error on this request's first exchange while a repair may already be owed, and the device cannot be
+        # re-opened: whichever of the two this request meets, the answer is the device error and the manager stays
+        return line, {"fault": {"at": 0, "spec": [rng.choice(["write", "read"])]}, "connect_failures": 1}, cmd
     if cause == "linkfault":
         return line, {"fault": {"at": at, "spec": [rng.choice(["write", "read"])]}}, cmd
     if cause == "outrange":
@@ -337,7 +343,8 @@ def run_lifetime(scratch, tag, should, causes, v1, rng, start_env=None, plat="le
         if stopped:
             break
         obs = client_request(port, line)
-        obs.update(k="conn", cause={"unsafe": "linkfault", "unsafe!": "unsafe"}.get(causes[i], causes[i]), stopreq=False)
+        obs.update(k="conn", cause={"unsafe": "linkfault", "unsafe!": "unsafe", "reconnfail": "linkfault"}.get(causes[i], causes[i]),
+                   stopreq=False)
         events.append(obs)
         # did the manager decide to stop while handling this request? (the child says so before the
         # connection is closed, so the line is already in the pipe)
